@@ -42,13 +42,41 @@ EXPLANATION = (
 EXPLANATION += (' R-C16-8 additionally requires the magnitude returned by RambergOsgood.stress to be the unmodified Newton root. R-C16-10 (not part of the proof rules): no method of the Hooke, Ramberg-Osgood and true-stress modules writes into an argument through any alias (effect analysis incl. out=, comprehensions, helper returns).')
 EXPLANATION += (" R-C16-11: every array conversion in the law modules (np.asarray / np.array / astype) is value preserving - no element type, a floating type, or the common type of all components - and the Hooke conversion helper returns np.asarray(component) for each component in order; this discharges the identity treatment of that helper in the symbolic execution.")
 EXPLANATION += (" R-C16-12: the residual and every derivative handed to the Newton solver contain no power of the iterate whose exponent can be negative for some 0 < n < 1 (interval arithmetic on the exponent, following the methods they call): such a term is infinite at the zero iterate that zero strain starts from.")
+EXPLANATION += (' R-C16-13 (not part of the proof rules; shared rule sa/units.py): in the Ramberg-Osgood module every power whose exponent is not a literal is taken of a quotient (stress / K) or of a strain.')
 ASSUMPTIONS = ["E, K, n > 0, -1 < nu < 1/2 (enforced by the constructor), positive stress argument for the derivative identity",
                "scipy.optimize.newton returns a root of func when it converges (not part of any obligation)"]
 
 
 def run(ctx):
-    for r in (_purity, _conversion, _hooke, _ramberg, _newton, _newton_domain, _true):
+    for r in (_purity, _conversion, _hooke, _ramberg, _newton, _newton_domain, _true, _power_bases):
         ctx.attempt(r)
+
+
+def _power_bases(ctx):
+    """R-C16-13 (shared rule sa/units.py; not a proof rule): in the Ramberg-Osgood module every power with the hardening exponent is
+    taken of the dimensionless ratio stress / K (or of a strain).  `K ** (1 / n)` with K in Pa and n = 0.03 is 1e300: the algebraically
+    identical single fraction for the tangential modulus returns inf / nan for every stress while the compliance stays correct."""
+    from .. import units
+    prog = ctx.prog
+    if not units.selfcheck():
+        raise AnalysisError("dimensionful-power rule: built-in example not matched")
+    ctx.rule("R-C16-13", floor=2, what="powers with the hardening exponent are taken of stress / K or of a strain")
+    n = 0
+    for key, fi in sorted(prog.functions.items()):
+        if fi.module.name != "pylife.materiallaws.rambgood" or fi.parent is not None:
+            continue
+        hits = units.dimensionful_power_bases(fi.node, ("strain", "abs_strain", "delta_strain", "plastic_strain", "elastic_strain"))
+        for node, base, expo in hits:
+            n += 1
+            ctx.violated(fi, node, "%s raises %s - a stress-valued quantity - to the power %s: with K in Pa and a small hardening exponent the "
+                         "power overflows float64; the law is stated in the ratio stress / K" % (fi.qualname, base, expo),
+                         text="power of the dimensionful %s in %s" % (base, fi.qualname))
+        if not hits and any(isinstance(x, ast.Call) and (call_name(x) or "") in units.POWER_CALLS or isinstance(x, ast.BinOp) and isinstance(x.op, ast.Pow)
+                            for x in ast.walk(fi.node)):
+            n += 1
+            ctx.holds(fi, fi.node, "%s: powers of stress / K or of strains only" % fi.qualname)
+    if n < 2:
+        raise AnalysisError("fewer than two functions with powers found in the Ramberg-Osgood module")
 
 
 FLOAT_DTYPES = {"float", "np.float64", "np.double", "np.float_", "'float64'", "'float'", "'f8'", "np.longdouble", "np.float128"}
